@@ -27,8 +27,10 @@ class WAPProtocol(HTTPProtocol):
 
         waptop = self.config.get("protocols.wap.WAPProtocol", "waptop")
         self.waptop = waptop
-        if self.requestparts[1].startswith(waptop):
-            # If it starts with waptop, *guaranteed* to be wap.
+        if self.requestparts[1] == waptop or self.requestparts[1].startswith(
+            (waptop + "/", waptop + "?")
+        ):
+            # If it is below waptop, *guaranteed* to be wap.
             self.requestparts[1] = self.requestparts[1][len(waptop) :]
             return True
 
